@@ -61,6 +61,13 @@ func (d *dialer) Dial() (_ transport.Pipe, err error) {
 	return d.hs.Wait()
 }
 
+// Close aborts connection attempts still shaking hands.  The core dialer
+// calls it when it is closed; nothing is dialed afterwards.
+func (d *dialer) Close() error {
+	d.hs.Close()
+	return nil
+}
+
 func (d *dialer) SetOption(n string, v interface{}) error {
 	d.lock.Lock()
 	defer d.lock.Unlock()
